@@ -9,9 +9,9 @@ from harness import parse_common as PC
 from harness.driver import Driver, DriverError
 
 PID = 'C02'
-THEOREMS = ['PyDBML.C02.refs_roundtrip_partial', 'PyDBML.C02.renderDb_tables_refs', 'PyDBML.C02.tables_roundtrip_partial', 'PyDBML.C02.enum_roundtrip_partial', 'PyDBML.C02.renderDb_tables', 'PyDBML.C02.table_roundtrip_partial', 'PyDBML.C02.sticky_roundtrip_partial', 'PyDBML.C02.renderDb_table', 'PyDBML.C02.renderDb_sticky',
+THEOREMS = ['PyDBML.C02.flags_table_roundtrip_partial', 'PyDBML.C02.form_roundtrip', 'PyDBML.C02.settings_ok', 'PyDBML.C02.refs_roundtrip_partial', 'PyDBML.C02.renderDb_tables_refs', 'PyDBML.C02.tables_roundtrip_partial', 'PyDBML.C02.enum_roundtrip_partial', 'PyDBML.C02.renderDb_tables', 'PyDBML.C02.table_roundtrip_partial', 'PyDBML.C02.sticky_roundtrip_partial', 'PyDBML.C02.renderDb_table', 'PyDBML.C02.renderDb_sticky',
             'PyDBML.C02.tableRule_ok', 'PyDBML.C02.many_body', 'PyDBML.C02.stickyNoteRule_ok']
-MODULES = ['PyDBMLProofs.Props.C02Sticky', 'PyDBMLProofs.Props.C02Table', 'PyDBMLProofs.Props.C02Tables', 'PyDBMLProofs.Props.C02Enum', 'PyDBMLProofs.Props.C02Refs']
+MODULES = ['PyDBMLProofs.Props.C02Sticky', 'PyDBMLProofs.Props.C02Table', 'PyDBMLProofs.Props.C02Tables', 'PyDBMLProofs.Props.C02Enum', 'PyDBMLProofs.Props.C02Refs', 'PyDBMLProofs.Props.C02Form', 'PyDBMLProofs.Props.C02Flags']
 
 
 def canonical_ref_order(spec):
@@ -288,7 +288,11 @@ def main(tier, seed):
         rule='databases from three sources: parsed from spelled documents, built through the public classes from Expressible '
              'values, and wild API-built ones (named reasons outside Expressible), plus the corpus; each rendered, re-parsed, '
              're-rendered twice. Non-trivial: >=1 table and >=2 features; distinct by content hash',
-        explanation='Theorem refs_roundtrip_partial (a database of any positive number of plain tables and any positive number of pairwise '
+        explanation='Theorem flags_table_roundtrip_partial (one table whose columns carry ANY SUBSET of the settings pk, increment, unique, '
+                    'not null round-trips, with the properties switch on or off: the settings list goes through column_settings / '
+                    'column_settings_with_properties, parse_column_settings, ColumnBlueprint.build and render_column; it is an instance of '
+                    'form_roundtrip, which carries any column FORM that is read back through the table rule, the document, the build and '
+                    'the renderer). Theorem refs_roundtrip_partial (a database of any positive number of plain tables and any positive number of pairwise '
                     'different standalone single-column references between their columns round-trips: every reference is resolved, by table and '
                     'column NAME, back to the very positions it was written from; the hypotheses on names are exactly the recorded findings: no '
                     'dot in a table name, no comma/framing parentheses or blanks in a column name, no two columns of one table with one name). '
